@@ -52,7 +52,8 @@ CONTRACTS = {
     "hmac_sha1_process_data": [R(0, 1), R(2, 3), W(4, 20)],
     "GOST34112012_Init": [OBJ(0)], "GOST34112012_Update": [OBJ(0), R(1, 2)], "GOST34112012_Final": [OBJ(0), W(1, 32)], "GOST34112012_Cleanup": [OBJ(0)],
     "gost_hash256": [R(0, 1), W(2, 32), OBJ(3)], "gost_hmac256": [R(0, 1), R(2, 3), W(4, 32), OBJ(5)],
-    "des_set_key": [OBJ(0), R(1, size=8)], "des_set_salt": [OBJ(0)], "des_crypt_block": [R(0, size=132), W(1, 8), R(2, size=8)],
+    # struct des_ctx { uint32_t keysl[16], keysr[16]; uint32_t saltbits; }: the key schedule and the salt bits are set separately
+    "des_set_key": [W(0, 128), R(1, size=8)], "des_set_salt": [dict(W(0, 4), off=128)], "des_crypt_block": [R(0, size=132), W(1, 8), R(2, size=8)],
     "yescrypt_kdf": [R(2, 3), R(4, 5), R(6), W(7, len_=8), {"op": "ret", "lo": -1, "hi": 0}],
     "check_badsalt_chars": [{"op": "ret", "lo": 0, "hi": 1}],
 }
@@ -69,7 +70,7 @@ def config(m, extra_contracts=None):
     if extra_contracts:
         c.update(extra_contracts)
     return {"reportRegion": "data", "reportLimit": 384, "wsetResetAfter": common.sym(m, "make_failure_token").name, "track": 512, "fields": fields, "contracts": c, "maxPaths": 400000, "maxSteps": 60000000,
-            "widenAfter": 3, "dedupe": True, "frameForkWiden": 0, "ptrWidenAfter": 40, "fmtForkMax": 24, "forkyLoop": 64}
+            "widenAfter": 3, "dedupe": True, "trackInit": True, "frameForkWiden": 0, "ptrWidenAfter": 40, "fmtForkMax": 24, "forkyLoop": 64}
 
 
 def crypt_cell(cid, entry, prefix, tailset=None, phrase_len=(0, (1 << 31) - 1), setting_extra=(0, (1 << 31) - 1), size=None,
@@ -84,7 +85,7 @@ def crypt_cell(cid, entry, prefix, tailset=None, phrase_len=(0, (1 << 31) - 1), 
         {"name": "phrase", "kind": "cstr", "bytes": "", "tail": True, "prov": "phrase", "tailset": set_hex(set(range(0, 256)))},
         {"name": "setting", "kind": "cstr", "bytes": (setting_bytes if setting_bytes is not None else prefix).hex(), "tail": setting_bytes is None, "prov": "setting", "len_root": 1, "tailtrack": 96,
          "tailset": set_hex(tailset)},
-        {"name": "data", "kind": "buf", "size_root": 2, "prov": "other", "fieldmap": True, "align_root": 3},
+        {"name": "data", "kind": "buf", "size_root": 2, "prov": "other", "fieldmap": True, "align_root": 3, "uninit": True},
     ]
     if setting_bytes is not None:
         regions[1].pop("len_root")
